@@ -283,6 +283,10 @@ func init() {
 	// ---- Value methods ----
 	R("(reflect.Value).Kind", func(e *Exec, _ *frame, a []Value) Value { return int64(kindOf(rv(a[0]).t)) })
 	R("(reflect.Value).IsValid", func(e *Exec, _ *frame, a []Value) Value { return rv(a[0]).t != nil })
+	R("(reflect.Value).Comparable", func(e *Exec, _ *frame, a []Value) Value {
+		r := rv(a[0])
+		return e.valueComparable(r.t, r.v)
+	})
 	R("(reflect.Value).CanInterface", func(e *Exec, _ *frame, a []Value) Value {
 		if rv(a[0]).t == nil {
 			e.valueErrorPanic("reflect.Value.CanInterface", reflect.Invalid)
@@ -967,4 +971,43 @@ func (e *Exec) methodNames(t types.Type) []string {
 		}
 	}
 	return out
+}
+
+
+// valueComparable mirrors (reflect.Value).Comparable of Go 1.23: the dynamic check that == on the
+// value will not panic.
+func (e *Exec) valueComparable(t types.Type, v Value) bool {
+	if t == nil {
+		return true
+	}
+	switch u := under(t).(type) {
+	case *types.Array:
+		switch under(u.Elem()).(type) {
+		case *types.Interface, *types.Array, *types.Struct:
+			for _, c := range v.(Array) {
+				if !e.valueComparable(u.Elem(), c) {
+					return false
+				}
+			}
+			return true
+		}
+		return types.Comparable(t)
+	case *types.Interface:
+		i := v.(Iface)
+		if i.t == nil {
+			return true
+		}
+		if _, ok := i.v.(RValue); ok {
+			return true // an interface holding a reflect.Value: a comparable struct
+		}
+		return e.valueComparable(i.t, i.v)
+	case *types.Struct:
+		for j, c := range v.(Struct) {
+			if !e.valueComparable(u.Field(j).Type(), c) {
+				return false
+			}
+		}
+		return true
+	}
+	return types.Comparable(t)
 }
